@@ -102,6 +102,7 @@ type PathStats struct {
 	Unsupported map[string]int64
 	Unknowns    int64
 	WitnessHits int64
+	PinHits     int64
 	Samples     []string
 }
 
@@ -143,6 +144,10 @@ type Interp struct {
 	tier         string
 	all          []*model
 	noModelCache bool
+	pins         map[string]uint64 // variables fixed by an equality of the path condition
+	pinModel     *model
+	doms         map[string]*byteDom
+	tinfo        map[int32]*termInfo
 	noMerge      bool
 
 	cfg          *Kernel
@@ -264,6 +269,7 @@ func (in *Interp) addPC(c *Term) {
 		in.pcSet[c.id] = true
 		in.pc = append(in.pc, c)
 		in.filterModels(c)
+		in.learnPin(c)
 	}
 }
 
@@ -338,6 +344,22 @@ func (in *Interp) branch(c *Term) bool {
 		}
 		in.pos++
 		if d.chosen == 1 {
+			in.addPC(c)
+			return true
+		}
+		in.addPC(nc)
+		return false
+	}
+	if v, ok := in.pinEval(c); ok {
+		// every variable of c is fixed by an equality in the path condition
+		d := decision{kind: dBranch}
+		if v {
+			d.chosen = 1
+		}
+		in.stats.PinHits++
+		in.dec = append(in.dec, d)
+		in.pos++
+		if v {
 			in.addPC(c)
 			return true
 		}
